@@ -10,6 +10,19 @@ mod runner;
 
 pub use runner::run_check;
 
+#[cfg(feature = "verif-hooks")]
+pub mod verif {
+    //! Re-exports for the verification harness (feature `verif-hooks`).
+    pub use super::check_args::apply_cli_overrides;
+    pub use super::check_baseline_ops::{
+        RatchetResult, apply_baseline_comparison, check_baseline_ratchet, tighten_baseline,
+        update_baseline_from_results,
+    };
+    pub use super::check_exit::determine_exit_code;
+    pub use super::check_git_diff::parse_diff_range;
+    pub use super::check_processing::compute_effective_stats;
+}
+
 // Re-export internal items for tests
 #[cfg(test)]
 pub(crate) use check_args::{apply_cli_overrides, validate_and_resolve_paths};
